@@ -316,6 +316,8 @@ def check_frame(ctx, tag, f, h, w, anchor=None, depth=0):
     var = here
 
     def name(v):
+        if hasattr(v, "data"):
+            return [getattr(e, "id", repr(e)) for e in v.data]
         return getattr(v, "id", repr(v))
 
     # __getitem__: doubled coordinates of the midpoint = sum of the two ends
